@@ -214,6 +214,19 @@ def build_sched_harness():
     return rc == 0, out, binp
 
 
+HARNESS26 = os.path.join(VERIF, "harness26")
+
+
+def build_go126_harness():
+    """The virtual-clock harness (testing/synctest needs Go 1.26): a test binary."""
+    os.makedirs(WORK, exist_ok=True)
+    with open(os.path.join(HARNESS26, "go.sum"), "w") as f:
+        f.write(open(os.path.join(REPO, "go.sum")).read())
+    binp = os.path.join(WORK, "verif26.test")
+    rc, out, _ = run(["go1.26", "test", "-c", "-o", binp, "."], cwd=HARNESS26, env=GOENV, timeout=1500)
+    return rc == 0, out, binp
+
+
 def build_race_harness():
     os.makedirs(WORK, exist_ok=True)
     binp = os.path.join(WORK, "verifr")
